@@ -23,6 +23,7 @@ EXPLANATION = (
     "type with different parameters stay distinct (shared with C16.W6); "
     "(D2, verbatim) semver is handed the extension's version string as written; (D4, equality) name_match compares the "
     "definition name for equality with the last path segment."
+    " (D1, evaluated) convert_rust_extension is evaluated over the fact tree (rules/minirust.py) for every combination of crate configuration {absent, *, !, matching version, non-matching version} x unknown-crate policy x malformed member {requirement, path, path prefix, no separator, extension}, with rename and two parameters: it substitutes exactly in the documented cases, the path's first segment becomes the rename's identifier, parameters are converted in order, and semver receives the `version` string as written. When that evaluation is possible the shape-based D1/D2/W2 rules below are advisory."
 )
 ASSUMPTIONS = ["semver::VersionReq::matches implements semver compatibility", "serde_json::from_value rejects extensions missing required members"]
 
@@ -49,24 +50,128 @@ def native_ctor_fns(c):
     return out
 
 
+class Advisory:
+    """When the policy was decided by evaluation, the shape-based rules for the same clauses only explain: what they
+    confirm is recorded, what they cannot find or match in a rewritten function is not an alarm."""
+
+    def __init__(self, rep):
+        self.rep = rep
+
+    def ob(self, rule, key, ok, detail="", where=None, nontrivial=True):
+        if ok:
+            return self.rep.ob(rule, key, ok, detail, where, nontrivial)
+        self.rep.info("advisory (clause decided by evaluation): %s/%s: %s" % (rule, key, detail[:160]))
+        return False
+
+    def floor(self, rule, what, count, minimum):
+        if count >= minimum:
+            return self.rep.floor(rule, what, count, minimum)
+        self.rep.info("advisory (clause decided by evaluation): %s anchor `%s` not found (%d < %d)" % (rule, what, count, minimum))
+        return False
+
+
+def run_policy_eval(facts, rep):
+    """The whole policy of `convert_rust_extension`, decided by evaluating the function (rules/minirust.py, over the fact
+    tree, with the extension, the settings and semver's answer as inputs) for every combination of crate configuration x
+    unknown-crate policy x requirement outcome x malformed member, plus rename and parameter order. -> True if evaluable."""
+    import minirust as mr
+    c = facts.impl
+    hs = [h for h in c.user_fns() if h["fn"].endswith("TypeSpace::convert_rust_extension")]
+    if not hs:
+        return False
+    h = hs[0]
+    seen_req = []
+
+    def run(cfg, policy, req_ok, malformed=None, rename=None, params=0):
+        ext = ("struct", "RustExtension", {"crate_name": "ext-lib", "version": "1.0" if malformed != "version" else "bad",
+                                           "path": {"path": "other::Thing", "path-prefix": "ext_lib_extra::Thing", "path-nosep": "ext_lib", "path-unparsable": "ext_lib::Thi ng"}.get(malformed, "ext_lib::Thing"), "parameters": [("json", "p%d" % i_) for i_ in range(params)]})
+        crates = {}
+        if cfg is not None:
+            crates["ext-lib"] = ("struct", "CrateSpec", {"version": cfg, "rename": mr.some(rename) if rename else mr.NONE})
+        me = ("struct", "TypeSpace", {"settings": ("struct", "TypeSpaceSettings", {"crates": ("map", crates), "unknown_crates": ("ctor", policy, [])})})
+        schema = ("struct", "SchemaObject", {"extensions": ("map", {"x-rust-type": ("json", "ext")})})
+
+        def get(m, recv, k):
+            if isinstance(recv, tuple) and recv and recv[0] == "map":
+                return mr.some(recv[1][k]) if k in recv[1] else mr.NONE
+            raise mr.Unknown("get on %r" % (recv,))
+
+        def parse(m, s_):
+            seen_req.append(s_)
+            return ("Ok", ("req", s_)) if s_ != "bad" else ("Err", "e")
+        hooks = {"get": get, "from_value": lambda m, v: ("Ok", ext) if malformed != "json" else ("Err", "e"), "parse": parse,
+                 "parse_str": lambda m, s_: ("Ok", "tp") if isinstance(s_, str) and " " not in s_ else ("Err", "e"),
+                 "matches": lambda m, recv, v: req_ok if isinstance(recv, tuple) and recv and recv[0] == "req" else (_ for _ in ()).throw(mr.Unknown("matches on %r" % (recv,))),
+                 "id_for_schema": lambda m, me_, nm_, sch: ("Ok", ("tup", [("id", sch), mr.NONE])),
+                 "new_native_params": lambda m, p_, ids: ("native", p_, ids), "to_string_pretty": lambda m, *a: ("Ok", "s"),
+                 "contains_key": lambda m, recv, k: k in recv[1],
+                 "__format_string": lambda sp: (lambda t: (re.match(r'\s*"((?:[^"\\]|\\.)*)"', t["text"]).group(1) if t and re.match(r'\s*"((?:[^"\\]|\\.)*)"', t["text"]) else None))(facts.template_at(sp))}
+        m = mr.Machine(c, hooks=hooks)
+        return m.run_fn(h, [me, schema])
+    ANY, NEVER, VER = ("ctor", "Any", []), ("ctor", "Never", []), ("ctor", "Version", [("ver", "1.2.3")])
+    bad = None
+    n = 0
+    try:
+        for cfg_name, cfg, req_ok in (("absent", None, True), ("`*`", ANY, False), ("`!`", NEVER, True), ("a version that satisfies the requirement", VER, True), ("a version that does not satisfy the requirement", VER, False)):
+            for policy in ("Generate", "Allow", "Deny"):
+                for malformed in (None, "version", "path", "path-prefix", "path-nosep", "path-unparsable", "json"):
+                    r_ = run(cfg, policy, req_ok, malformed)
+                    n += 1
+                    subst = isinstance(r_, tuple) and r_ and r_[0] == "Some"
+                    want = malformed is None and (cfg is ANY or (cfg is VER and req_ok) or (cfg is None and policy == "Allow"))
+                    if subst != want:
+                        bad = "crate configured as %s, unknown-crate policy %s%s: the schema is %s, the documented outcome is %s" % (
+                            cfg_name, policy, {None: "", "version": ", unparsable requirement", "path": ", path not starting with the crate", "path-prefix": ", path whose first segment merely begins with the crate's name", "path-nosep": ", path without `::`", "path-unparsable": ", path that is not a type path", "json": ", malformed extension"}[malformed],
+                            "replaced by the external type" if subst else "generated", "substitution" if want else "generation from the schema")
+                        break
+                if bad:
+                    break
+            if bad:
+                break
+        if not bad:
+            r_ = run(ANY, "Generate", True, rename="new-name", params=2)
+            n += 1
+            if not (isinstance(r_, tuple) and r_[0] == "Some" and isinstance(r_[1], tuple) and r_[1][0] == "native"):
+                bad = "a configured rename with two parameters does not substitute"
+            else:
+                path, ids = r_[1][1], r_[1][2]
+                if path != "::new_name::Thing":
+                    bad = "with the crate renamed to `new-name` the external path is `%s` (documented: the first segment is replaced by the rename's identifier, `::new_name::Thing`)" % path
+                elif ids != [("id", ("json", "p0")), ("id", ("json", "p1"))]:
+                    bad = "the declared type parameters are not converted and applied in order (got %r)" % (ids,)
+            r_ = run(ANY, "Generate", True)
+            if not bad and not (isinstance(r_, tuple) and r_[0] == "Some" and r_[1][1] == "::ext_lib::Thing"):
+                bad = "without a rename the external path is `%s` (documented `::ext_lib::Thing`)" % (r_[1][1] if isinstance(r_, tuple) and r_[0] == "Some" else r_,)
+            if not bad and any(x not in ("1.0", "bad") for x in seen_req):
+                bad = "the requirement handed to semver is `%s`, not the extension's `version` as written" % [x for x in seen_req if x not in ("1.0", "bad")][0]
+    except mr.Unknown as e_:
+        rep.info("C13 policy not evaluable (%s): the shape-based rules decide" % e_)
+        return False
+    rep.ob("C13.D1", "policy-as-documented", bad is None, "evaluated on %d combinations of crate configuration x unknown-crate policy x requirement outcome x malformed member, plus rename and parameters" % n if bad is None else
+           "the x-rust-type policy departs from the documentation: %s" % bad, c.fns[h["fn"]].get("sp"))
+    return True
+
+
 def run(facts, rep, tier):
     c = facts.impl
     run_w34(facts, rep)
+    evaluated = run_policy_eval(facts, rep)
+    R = Advisory(rep) if evaluated else rep
     pf = find_policy_fn(c)
-    if not rep.floor("C13.D1", "fn containing a match on CrateVers", len(pf), 1):
+    if not R.floor("C13.D1", "fn containing a match on CrateVers", len(pf), 1):
         return
     h, vers_match = pf[0]
     F = h["fn"]
     natives = native_ctor_fns(c)
     effects = [n for n, _ in walk(h["body"]) if n.get("k") in ("call", "mcall") and n.get("fn") in natives]
-    if not rep.floor("C13.D1", "substitution effect (native constructor call) in " + F, len(effects), 1):
+    if not R.floor("C13.D1", "substitution effect (native constructor call) in " + F, len(effects), 1):
         return
     effect = effects[0]
     rep.sample({"rule": "C13.D1", "policy_fn": F, "effect": src(effect)[:120], "at": effect.get("sp")})
 
     # ------------------------------------------------------------ D1 cut on the MIR CFG
     m = c.mir.get(F)
-    if rep.floor("C13.D1", "MIR body of " + F, 1 if m else 0, 1):
+    if R.floor("C13.D1", "MIR body of " + F, 1 if m else 0, 1):
         cfg = Cfg(m)
         policy_blocks = set()
         for b in m["blocks"]:
@@ -77,13 +182,13 @@ def run(facts, rep, tier):
             if t["k"] == "call" and "UnknownPolicy" in t["fn"] and t["fn"].endswith("::eq"):
                 policy_blocks.add(b["bb"])
         eff_blocks = [bb for bb, t in cfg.calls() if t["fn"] == effect["fn"]]
-        rep.floor("C13.D1", "policy test blocks in the CFG", len(policy_blocks), 2)
+        R.floor("C13.D1", "policy test blocks in the CFG", len(policy_blocks), 2)
         reach_all = cfg.reachable()
         reach_cut = cfg.reachable(removed=policy_blocks)
         for eb in eff_blocks:
-            rep.ob("C13.D1", "cut:effect-needs-policy-test", eb in reach_all and eb not in reach_cut,
+            R.ob("C13.D1", "cut:effect-needs-policy-test", eb in reach_all and eb not in reach_cut,
                    "native construction (bb%d) is %s once the %d policy-test blocks are removed" % (eb, "unreachable" if eb not in reach_cut else "still REACHABLE", len(policy_blocks)), effect.get("sp"))
-        rep.floor("C13.D1", "effect call blocks", len(eff_blocks), 1)
+        R.floor("C13.D1", "effect call blocks", len(eff_blocks), 1)
 
     # ------------------------------------------------------------ D1 arms: configured crate
     ext_bind = {}
@@ -93,7 +198,7 @@ def run(facts, rep, tier):
                 for fname, fp in p["fields"]:
                     if fp.get("k") == "bind":
                         ext_bind[fname] = fp["name"]
-    rep.floor("C13.D2", "destructured extension members", len(ext_bind), 4)
+    R.floor("C13.D2", "destructured extension members", len(ext_bind), 4)
 
     seen = {}
     for arm in vers_match["arms"]:
@@ -104,28 +209,28 @@ def run(facts, rep, tier):
             name = tv.split("::")[-1]
             seen[name] = (oc, g)
             if name == "Any":
-                rep.ob("C13.D1", "arm:configured/Any", oc in ("unit", "value") and g is None, "Any => %s%s" % (oc, " (guarded)" if g else ""), arm.get("sp"))
+                R.ob("C13.D1", "arm:configured/Any", oc in ("unit", "value") and g is None, "Any => %s%s" % (oc, " (guarded)" if g else ""), arm.get("sp"))
             elif name == "Version":
                 gcalls = calls_in(g) if g else []
                 has_matches = any(x.endswith("VersionReq::matches") for x in gcalls)
                 negated = bool(g) and g.get("k") == "un" and g.get("op") == "Not"
                 uses_req = bool(g) and any(x.get("k") == "path" and x.get("res") == "local" for x, _ in walk(g))
                 if oc in ("unit", "value"):
-                    rep.ob("C13.D1", "arm:configured/Version", has_matches and not negated and uses_req,
+                    R.ob("C13.D1", "arm:configured/Version", has_matches and not negated and uses_req,
                            "Version continues under guard `%s`" % src(g) if g else "Version continues with NO version-requirement guard", arm.get("sp"))
                 else:
-                    rep.ob("C13.D1", "arm:configured/Version-unguarded-rejects", True, "Version (this arm) => %s" % oc, arm.get("sp"))
+                    R.ob("C13.D1", "arm:configured/Version-unguarded-rejects", True, "Version (this arm) => %s" % oc, arm.get("sp"))
             elif name in ("Never", "_"):
-                rep.ob("C13.D1", "arm:configured/%s" % name, oc == "ret-none", "%s => %s" % (name, oc), arm.get("sp"))
+                R.ob("C13.D1", "arm:configured/%s" % name, oc == "ret-none", "%s => %s" % (name, oc), arm.get("sp"))
             else:
-                rep.ob("C13.D1", "arm:configured/%s" % name, oc == "ret-none", "unexpected arm %s => %s (only Any and matching Version may substitute)" % (name, oc), arm.get("sp"))
-    rep.ob("C13.D1", "arm:configured/Version-exists", "Version" in seen and seen["Version"][0] in ("unit", "value"),
+                R.ob("C13.D1", "arm:configured/%s" % name, oc == "ret-none", "unexpected arm %s => %s (only Any and matching Version may substitute)" % (name, oc), arm.get("sp"))
+    R.ob("C13.D1", "arm:configured/Version-exists", "Version" in seen and seen["Version"][0] in ("unit", "value"),
            "a configured version that satisfies the requirement substitutes" if "Version" in seen else "no arm lets a matching Version substitute", vers_match.get("sp"))
-    rep.ob("C13.D1", "arm:configured/Any-exists", "Any" in seen, "`*` substitutes" if "Any" in seen else "no arm for CrateVers::Any", vers_match.get("sp"))
+    R.ob("C13.D1", "arm:configured/Any-exists", "Any" in seen, "`*` substitutes" if "Any" in seen else "no arm for CrateVers::Any", vers_match.get("sp"))
     never_rejects = ("Never" in seen and seen["Never"][0] == "ret-none") or ("_" in seen and seen["_"][0] == "ret-none")
-    rep.ob("C13.D1", "arm:configured/Never-rejects", never_rejects, "`!` generates from the schema", vers_match.get("sp"))
+    R.ob("C13.D1", "arm:configured/Never-rejects", never_rejects, "`!` generates from the schema", vers_match.get("sp"))
     # scrutinee is the looked-up crate's version
-    rep.ob("C13.D1", "scrutinee:configured", "version" in src(vers_match["scrut"]), "match on `%s`" % src(vers_match["scrut"]), vers_match.get("sp"))
+    R.ob("C13.D1", "scrutinee:configured", "version" in src(vers_match["scrut"]), "match on `%s`" % src(vers_match["scrut"]), vers_match.get("sp"))
 
     # the lookup that selects between the two tables
     lookup_if = None
@@ -133,13 +238,13 @@ def run(facts, rep, tier):
         cond = n["cond"]
         if cond.get("k") == "letx" and contains_node(n["then"], vers_match):
             lookup_if = n
-    if rep.floor("C13.D1", "if-let around the configured-crate table", 1 if lookup_if else 0, 1):
+    if R.floor("C13.D1", "if-let around the configured-crate table", 1 if lookup_if else 0, 1):
         init = lookup_if["cond"]["init"]
         s = src(init)
         key_ok = "crates" in s and ".get(" in s and ext_bind.get("crate_name", "\0") in s
-        rep.ob("C13.D1", "lookup:settings.crates[extension crate]", key_ok, "lookup is `%s`" % s, lookup_if.get("sp"))
+        R.ob("C13.D1", "lookup:settings.crates[extension crate]", key_ok, "lookup is `%s`" % s, lookup_if.get("sp"))
         pol = [n for n, _ in nodes(lookup_if.get("else") or {}, "match") if "UnknownPolicy" in c.ty(n.get("scty"))]
-        if rep.floor("C13.D1", "unknown-crate policy match in the not-configured branch", len(pol), 1):
+        if R.floor("C13.D1", "unknown-crate policy match in the not-configured branch", len(pol), 1):
             spec = {"Allow": ("value", "unit"), "Generate": ("ret-none",), "Deny": ("ret-none",)}
             got = {}
             from lib import table_is_plain
@@ -150,13 +255,13 @@ def run(facts, rep, tier):
             for name, allowed in spec.items():
                 if name in got:
                     oc, arm = got[name]
-                    rep.ob("C13.D1", "arm:unconfigured/%s" % name, oc in allowed and arm.get("guard") is None, "%s => %s" % (name, oc), arm.get("sp"))
+                    R.ob("C13.D1", "arm:unconfigured/%s" % name, oc in allowed and arm.get("guard") is None, "%s => %s" % (name, oc), arm.get("sp"))
                 elif "_" in got:
                     oc, arm = got["_"]
-                    rep.ob("C13.D1", "arm:unconfigured/%s" % name, oc in allowed, "%s (wildcard) => %s" % (name, oc), arm.get("sp"))
+                    R.ob("C13.D1", "arm:unconfigured/%s" % name, oc in allowed, "%s (wildcard) => %s" % (name, oc), arm.get("sp"))
                 else:
-                    rep.ob("C13.D1", "arm:unconfigured/%s" % name, False, "no arm for %s" % name, pol[0].get("sp"))
-            rep.ob("C13.D1", "scrutinee:unconfigured", "unknown_crates" in src(pol[0]["scrut"]), "match on `%s`" % src(pol[0]["scrut"]), pol[0].get("sp"))
+                    R.ob("C13.D1", "arm:unconfigured/%s" % name, False, "no arm for %s" % name, pol[0].get("sp"))
+            R.ob("C13.D1", "scrutinee:unconfigured", "unknown_crates" in src(pol[0]["scrut"]), "match on `%s`" % src(pol[0]["scrut"]), pol[0].get("sp"))
 
     # ------------------------------------------------------------ D2 malformed => None before the policy
     stmts = top_stmts(h)
@@ -176,7 +281,7 @@ def run(facts, rep, tier):
 
     # (a) deserialisation failure
     st, n = find_pre(lambda n: n.get("k") == "let" and n.get("else") is not None and "from_value" in src(n.get("init")))
-    rep.ob("C13.D2", "malformed:deserialize", st is not None and outcome(n["else"]) == "ret-none",
+    R.ob("C13.D2", "malformed:deserialize", st is not None and outcome(n["else"]) == "ret-none",
            "let-else on %s returns None" % src(n["init"])[:60] if st else "no let-else on serde_json::from_value before the policy", (n or {}).get("sp"))
     # (b) requirement parse failure
     st, n = find_pre(lambda n: n.get("k") == "let" and "VersionReq::parse" in src(n.get("init")) and (n.get("else") is not None or (n.get("init") or {}).get("k") == "match"))
@@ -187,18 +292,18 @@ def run(facts, rep, tier):
     else:
         ok = st is not None and outcome(n["else"]) == "ret-none"
     ok = ok and ext_bind.get("version", "\0") in src(n["init"])
-    rep.ob("C13.D2", "malformed:requirement", ok, "let-else on %s returns None" % src(n["init"])[:60] if st else "no let-else on VersionReq::parse(version) before the policy", (n or {}).get("sp"))
+    R.ob("C13.D2", "malformed:requirement", ok, "let-else on %s returns None" % src(n["init"])[:60] if st else "no let-else on VersionReq::parse(version) before the policy", (n or {}).get("sp"))
     if st is not None:
         from lib import Canon as _Canon
         cnv = _Canon(c, h, 4)
         pa = [x for x, _ in walk(n["init"]) if x.get("k") == "call" and x.get("fn", "").endswith("VersionReq::parse") and x.get("args")]
         txt = cnv.r(strip_refs(pa[0]["args"][0])) if pa else ""
         okv = re.fullmatch(r"from_value\(.*\)~Ok~RustExtension\.version", txt) is not None
-        rep.ob("C13.D2", "requirement-parsed-verbatim", okv, "VersionReq::parse is given the extension's `version` member as written" if okv else
+        R.ob("C13.D2", "requirement-parsed-verbatim", okv, "VersionReq::parse is given the extension's `version` member as written" if okv else
                "the requirement handed to semver is `%s`, not the extension's `version` string as written: a requirement semver accepts can be rejected (or changed) by the rewriting, so a crate whose configured version satisfies it is not substituted" % txt[:120], (pa[0] if pa else n).get("sp"))
     # (c) missing `::`
     st, n = find_pre(lambda n: n.get("k") == "match" and n.get("src") == "try" and '.find("::")' in src(n))
-    rep.ob("C13.D2", "malformed:no-path-separator", st is not None and ext_bind.get("path", "\0") in src(n), "`%s`" % src(n)[:50] if st else "no `path.find(\"::\")?` before the policy", (n or {}).get("sp"))
+    R.ob("C13.D2", "malformed:no-path-separator", st is not None and ext_bind.get("path", "\0") in src(n), "`%s`" % src(n)[:50] if st else "no `path.find(\"::\")?` before the policy", (n or {}).get("sp"))
     # (d) crate ident != first segment
     st, n = find_pre(lambda n: n.get("k") == "if" and n["cond"].get("k") == "bin" and n["cond"]["op"] == "Ne" and outcome(n["then"]) == "ret-none" and "[" in src(n["cond"]))
     if st is not None:
@@ -210,13 +315,13 @@ def run(facts, rep, tier):
         bl_ = binding_let(h, ident_side)
         inits = [src(bl_.get("init"))] if bl_ is not None and bl_.get("init") is not None else []
         norm_ok = any(ext_bind.get("crate_name", "\0") in s and ".replace('-', \"_\")" in s for s in inits)
-        rep.ob("C13.D2", "malformed:crate-ident-mismatch", norm_ok and ext_bind.get("path", "\0") in cond, "`if %s { return None }` with %s = %s" % (cond, ident_name, inits[:1]), n.get("sp"))
+        R.ob("C13.D2", "malformed:crate-ident-mismatch", norm_ok and ext_bind.get("path", "\0") in cond, "`if %s { return None }` with %s = %s" % (cond, ident_name, inits[:1]), n.get("sp"))
     else:
-        rep.ob("C13.D2", "malformed:crate-ident-mismatch", False, "no `if crate_ident != path[..sep] { return None }` before the policy")
+        R.ob("C13.D2", "malformed:crate-ident-mismatch", False, "no `if crate_ident != path[..sep] { return None }` before the policy")
     # (e) the path must be a Rust path (otherwise rendering panics in type_ident)
     st, n = find_pre(lambda n: n.get("k") == "if" and "parse_str" in src(n["cond"]) and outcome(n["then"]) == "ret-none")
     ok = st is not None and ext_bind.get("path", "\0") in src(n["cond"])
-    rep.ob("C13.D2", "malformed:unparsable-path", ok,
+    R.ob("C13.D2", "malformed:unparsable-path", ok,
            "`if %s { return None }`" % src(n["cond"])[:70] if st else "the extension's path is never checked to be a Rust path before it is substituted (render-time panic in type_ident)", (n or {}).get("sp") or h.get("sp"))
 
     # ------------------------------------------------------------ W1 consulted first
@@ -256,7 +361,7 @@ def run(facts, rep, tier):
         for n, _ in nodes(lookup_if["then"], "if"):
             if n["cond"].get("k") == "letx" and "rename" in src(n["cond"]["init"]):
                 ren = n
-        if rep.floor("C13.W2", "rename branch", 1 if ren else 0, 1):
+        if R.floor("C13.W2", "rename branch", 1 if ren else 0, 1):
             b = [x["name"] for x, _ in walk(ren["cond"]["pat"]) if x.get("k") == "bind"]
             fm = [x for x, _ in walk(ren["then"]) if x.get("k") == "macro" and x["name"] == "format"]
             ok = False
@@ -267,9 +372,9 @@ def run(facts, rep, tier):
                 a1 = src(args[1]) if len(args) > 1 else ""
                 ok = len(args) == 2 and b[0] in a0 and "[" in a1 and ext_bind.get("path", "\0") in a1 and ".." in a1 or (len(args) == 2 and b[0] in a0 and "[" in a1)
                 detail = "format!(%s, %s)" % (a0, a1)
-            rep.ob("C13.W2", "rename-replaces-first-segment", ok, detail, ren.get("sp"))
+            R.ob("C13.W2", "rename-replaces-first-segment", ok, detail, ren.get("sp"))
             els = block_last(ren.get("else"))
-            rep.ob("C13.W2", "no-rename-keeps-path", isinstance(els, dict) and src(els) == ext_bind.get("path"), "else => %s" % src(els), ren.get("sp"))
+            R.ob("C13.W2", "no-rename-keeps-path", isinstance(els, dict) and src(els) == ext_bind.get("path"), "else => %s" % src(els), ren.get("sp"))
     # parameters: one in-order traversal feeding the constructor
     pb = ext_bind.get("parameters")
     eff_args = effect.get("args", [])
@@ -281,14 +386,14 @@ def run(facts, rep, tier):
                 n = binding_let(h, x)
                 if n is not None and n["pat"].get("k") == "bind" and pb and pb in src(n.get("init")):
                     pl = n
-    if rep.floor("C13.W2", "parameter conversion feeding the native constructor", 1 if pl else 0, 1):
+    if R.floor("C13.W2", "parameter conversion feeding the native constructor", 1 if pl else 0, 1):
         chain = [x["name"] for x, _ in walk(pl["init"]) if x.get("k") == "mcall" and not contains_closure_ancestor(pl["init"], x)]
         bad = [m for m in chain if m in ("rev", "sort", "sort_by", "skip", "take", "filter", "step_by", "dedup")]
         conv = any("id_for_schema" in x for x in calls_in(pl["init"]))
-        rep.ob("C13.W2", "parameters-in-order", not bad and conv and "iter" in chain, "parameters.%s (converted by id_for_schema: %s)" % (".".join(reversed(chain)), conv), pl.get("sp"))
+        R.ob("C13.W2", "parameters-in-order", not bad and conv and "iter" in chain, "parameters.%s (converted by id_for_schema: %s)" % (".".join(reversed(chain)), conv), pl.get("sp"))
     a0 = src(eff_args[0]) if eff_args else ""
-    rep.ob("C13.W2", "path-is-what-is-substituted", "format!" in a0 and ext_bind.get("path", "\0") in a0 or ext_bind.get("path", "\0") in a0, "native name = %s" % a0, effect.get("sp"))
-    rep.ob("C13.W2", "constructor-takes-parameters", natives.get(effect["fn"]) is True, "%s stores its parameter argument" % short(effect["fn"]))
+    R.ob("C13.W2", "path-is-what-is-substituted", "format!" in a0 and ext_bind.get("path", "\0") in a0 or ext_bind.get("path", "\0") in a0, "native name = %s" % a0, effect.get("sp"))
+    R.ob("C13.W2", "constructor-takes-parameters", natives.get(effect["fn"]) is True, "%s stores its parameter argument" % short(effect["fn"]))
 
     # ------------------------------------------------------------ D4 name mismatch => transparent newtype
     nm = [(hh, n) for hh in c.user_fns() for n, _ in nodes(hh["body"], "match") for a in n["arms"]
